@@ -42,6 +42,25 @@ CLAIMED = {
  'C20': dict(text='Real single-letter and equation-punctuation scans on plain texts given as symbolic strings (any code point, <= 3 chars) and as symbolic choices of <= 4 atoms x accept lists x modes; reference isolated-letter / placeholder scanners independent of re; create_context with unbounded symbolic offset/length.',
    note='Trusted: CrossHair+z3 (every path validated natively), reference scanners (60 lines). Bound: text length <= 4 atoms.',
    technique='symbolic execution of the regex scans on symbolic strings / atom choices; native validation', ref='DESIGN.md 4/C20'),
+ 'C05': dict(text='Two-hole sketches A . h1 . V . h2 . B for 22 vanishing constructs / chains: both layout holes are symbolic runs of blank / tab / line break (every layout up to 2 (thorough 3) characters each); per path z3 links the symbolic run to the native run; the gap between the words must be GLUED / SPACE / PARAGRAPH as a reference TeX line reader says.',
+   note=N_OFF, technique='symbolic execution of tex2txt with two symbolic layout holes (token splice with windows); z3 link queries; reference TeX reader', ref='DESIGN.md 4/C05'),
+ 'C06': dict(text='Whole filter on a fully symbolic string over every code point except \\ % # $ { } of length <= 3 (thorough 4), and on symbolic choices of <= 3 atoms among the special sequences and their prefixes; compared (text and positions) with a reference greedy longest-match tokenizer over the documented table.',
+   note='Trusted: CrossHair+z3 (link to native run per path), reference tokenizer (15 lines). Bound: length <= 3 / <= 3 atoms.',
+   technique='symbolic execution of scanner+parser on fully symbolic strings; native replay', ref='DESIGN.md 4/C06'),
+ 'C07': dict(text='Whole filter on fully symbolic strings (all code points, length <= 2) x option sets x multi-language; holes of <= 2 atoms from the 24 syntax-relevant characters in 47 base documents reaching every argument-indexing handler (solver-enumerated); every character-wise prefix and token-wise truncation/deletion of the skeleton catalogue with symbolic offsets. Verdict: result or documented SystemExit; abandoned paths are re-run natively under an alarm (hang detection).',
+   note='Trusted: CrossHair+z3. Termination is a time budget per path (20 s), not a ranking-function proof. Bound: see evidence.',
+   technique='symbolic execution on symbolic strings / solver-enumerated holes / symbolic truncation point; native re-run of abandoned paths under a wall-clock alarm', ref='DESIGN.md 4/C07'),
+ 'C08': dict(text='34 documents with one injected fault of every kind named in the property (incl. faults at the very end of the text) with symbolic comment text before and after: exactly one diagnostic, its line/column equal to the fault offset, complete mark pinned there (z3 discharges the position obligations for all d, e), listed words after the fault survive; family documents produce neither mark nor diagnostic.',
+   note=N_OFF, technique=T_OFF + '; symbolic line/column terms of diagnostics', ref='DESIGN.md 4/C08'),
+ 'C09': dict(text='35 documents over definitions with 0-9 parameters, defaults, \\def, redefinition, use before definition, nested and end-of-text calls with symbolic offsets, judged by the reference TeX substitution; symbolic words inside actual arguments; three supply routes (document / defs option / \\LTinput file) compared relationally for symbolic prefix lengths.',
+   note=N_OFF, technique=T_OFF + '; relational three-route comparison', ref='DESIGN.md 4/C09'),
+ 'C10': dict(text='Formula body symbolic (every character except $ \\ % { } # & [ ], length <= 2) in $..$ and \\(..\\): exactly one placeholder + final punctuation + blanks only for maths space, all mapped inside the formula; symbolic choices of <= 3 maths atoms; 14 rotation documents (text, arguments, items, footnotes, headings, operator-only formulas, de/ru) with symbolic offsets.',
+   note=N_OFF, technique=T_OFF + '; symbolic formula bodies', ref='DESIGN.md 4/C10'),
+ 'C11': dict(text='Equations = rows x aligned sections; the first two sections are a symbolic choice among 24 section kinds, others seeded; x 13 environments x en/de/ru x simple mode; compared with a 60-line reference model of the README scheme (per-line text, rotation, operator words, \\text positions, everything inside the equation); plus symbolic offsets and a symbolic maths hole.',
+   note='Trusted: CrossHair+z3; the reference model of the documented scheme. Bound: <= 3 rows x 3 sections.',
+   technique='solver-enumerated equation structures + symbolic offsets/holes against a reference model; native replay', ref='DESIGN.md 4/C11'),
+ 'C12': dict(text='32 babel documents with symbolic surrounding offsets and the continuation threshold symbolic and unbounded (CrossHair forks on its comparisons): every visible character in exactly one part, exact position, part label = reference language stack; an insertion of w words inside a sentence continues the part with one placeholder iff w <= T; same words as the single-language run.',
+   note=N_OFF, technique=T_OFF + '; symbolic threshold', ref='DESIGN.md 4/C12'),
 }
 NOT_YET = 'check not built yet in this session (planned: see DESIGN.md section 4)'
 
